@@ -4,6 +4,9 @@ ids 0..10   harness/fnlib.py (polynomial)
 ids 20..33  polynomial members of the shipped rate-law library mxlpy.fns
 id  40      a function fn_to_sympy cannot parse (-> ValueError "Unable to parse ...")
 ids 50..53  rational members of mxlpy.fns -- used by the ORACLE only (not in coq/symbolic/FnTab.v)
+ids 60..66  rate laws that BRANCH ON THE SIGN of an argument (if v < 0 / conditional expression / hand-written
+            abs, rectifier, gate) -- fn_to_sympy turns them into Piecewise; ORACLE only (coq/symbolic/SignFold.v
+            models what symbol assumptions do to such branches, see design/C12.md)
 
 coq/symbolic/FnTab.v mirrors ids 0..40; a drift shows as a correspondence mismatch."""
 
@@ -14,6 +17,46 @@ from harness import fnlib
 
 def f_pick(a):
     return [a, a + 1][0]
+
+
+def b_rect_neg(v, g):
+    # rectified leak: only flows while v < 0
+    if v < 0:
+        return -g * v
+    return 0.0
+
+
+def b_abs(v):
+    return -v if v < 0 else v
+
+
+def b_pos_part(v):
+    if v >= 0:
+        return v
+    return 0.0
+
+
+def b_abs_coupling(v, c, k):
+    magnitude = -v if v < 0 else v
+    return k * c * magnitude
+
+
+def b_leaky(v, a):
+    return v if v >= 0 else a * v
+
+
+def b_sgn_sq(v):
+    if v < 0:
+        return -v * v
+    else:
+        return v * v
+
+
+def b_gate(v, w):
+    return w if v < 0 else 2 * w
+
+
+BRANCH_IDS = [60, 61, 62, 63, 64, 65, 66]
 
 
 def table() -> dict[int, tuple]:
@@ -46,6 +89,9 @@ def table() -> dict[int, tuple]:
     t[51] = (fns.div, 2, False)
     t[52] = (fns.michaelis_menten_2s, 5, False)
     t[53] = (fns.one_div, 1, False)
+    for i, f, ar in [(60, b_rect_neg, 2), (61, b_abs, 1), (62, b_pos_part, 1), (63, b_abs_coupling, 3),
+                     (64, b_leaky, 2), (65, b_sgn_sq, 1), (66, b_gate, 2)]:
+        t[i] = (f, ar, False)
     return t
 
 
